@@ -44,6 +44,24 @@ CLAIMED = {
             "Trusts TLC, the JDK SHA-256 behind the Native override (self-tested against vectors on every run), and the "
             "parametricity argument that long division on digit arrays is radix-independent.",
             "DESIGN.md 5/C07"),
+    "C16": ("TLA+ specs Send.tla (build machine, conservation clauses), Spend.tla (template-level consensus validity of an input), "
+            "Sighash.tla (legacy SignatureHash and BIP143 digest) over Tx/Script/Ecdsa: TLC exhaustive on small instances (MC_Send); "
+            "bounded build cases and generated configurations run through the real send_tx with a scripted UTXO source and the "
+            "returned bytes judged by TLC (Trace_Send)",
+            "Exhaustive model check that the build machine conserves value for every UTXO list of <= 3 amounts around the dust threshold x "
+            "4 fractions x 3 fees, that a tampered transaction fails a clause, and that the legacy and BIP143 digests commit to exactly the "
+            "outputs / other inputs / own input each of the six sighash types prescribes (1..3 inputs and outputs, every index). The real "
+            "send_tx is driven over all ten sender kinds (m-of-n up to 3), seven recipient kinds incl. raw script and v1 witness program, "
+            "float-hostile satoshi amounts, output indices 0..5, versions, locktimes, all six flags, signed and unsigned; TLC parses the "
+            "returned transaction with Tx!TxDeser, checks inputs-are-reported / exact values / recipient / change / conservation with "
+            "big-natural arithmetic and validates every input's scriptSig+witness against the spent script with real SHA-256/RIPEMD-160 "
+            "and secp256k1 ECDSA evaluated from the TLA+ definitions.",
+            "Template-level validity (P2PK, P2PKH, bare/P2SH multisig, P2WPKH, P2WSH, nested forms), not a general script interpreter; "
+            "fractions are exact binary fractions; sender/recipient scriptPubKeys are built by the harness from the standard templates; "
+            "the legacy sighash of the spec is anchored by its stage-A commitment theorems and by agreement with the code on single-input "
+            "SIGHASH_ALL, BIP143 by the BIP's preimage vectors (C11). Known finding F21b (legacy multi-input / NONE / SINGLE-with-change "
+            "signing) is reported as KNOWN-FINDING.",
+            "DESIGN.md 5/C16, Appendix B"),
     "C18": ("TLA+ spec NodeQueue.tla: TLC explores all interleavings of the receive-thread actions (MC_NodeQueue); TLC-simulated "
             "behaviours replayed into the real recv_loop threads under a controlled scheduler; every interleaving of the real "
             "threads (stateless DFS) recorded as a trace and validated by TLC (Trace_NodeQueue)",
